@@ -306,8 +306,58 @@ def gen_cases(rng, tier):
                     if not det_exact(a):
                         c['noreq'] = True
                     add(fin(c))
+                # scale classes: the same well-conditioned / exactly singular matrices times an exact power of two.
+                # Scaling by 2^e is exact in float64, so inv scales by 2^-e, det by 2^(n e), and singularity is unchanged;
+                # values are judged by the oracle with a tolerance relative to the reference, the model decides shape + mask
+                for e in rng.sample(SCALE_EXPONENTS, 3):
+                    a = scaled(inv_operand(rng, sh, n, singular=True), e)
+                    c = {'op': 'inverse', 'a': a, 'via': rng.choice(['inverse', 'reciprocal', 'rtruediv']), 'mode': 'm', 'edge': True,
+                         'scale': e}
+                    if not det_exact(a):
+                        c['noreq'] = True
+                    add(fin(c, 'inverse/scaled'))
             b = inv_operand(rng, sh, 3, singular=True)
             add(fin({'op': 'mdiv', 'a': opd(rng, 'Matrix', sh, [2, 3], (), 'int'), 'b': b, 'noreq': True}))
+            for e in rng.sample(SCALE_EXPONENTS, 2):
+                n = rng.randint(1, 4)
+                b = scaled(inv_operand(rng, sh, n, singular=True), e)
+                add(fin({'op': 'mdiv', 'via': rng.choice(['div', 'idiv']), 'a': scaled(opd(rng, 'Matrix', sh, [rng.randint(1, 3), n], (), 'int'), rng.choice(SCALE_EXPONENTS)),
+                         'b': b, 'noreq': True, 'scale': e}, 'mdiv/scaled'))
+
+        # ---------------------------------------------------------------- every matrix-product form, in place and out of place
+        for sa, sb in pairs(rng, thorough):
+            out = np_bcast(sa, sb)
+            for _k in range(2):
+                st = exact_style(rng)
+                m, k = rng.randint(1, 4), rng.randint(1, 4)
+                cls = rng.choice(['Matrix', 'Matrix3'])
+                if cls == 'Matrix3':
+                    m = k = 3
+                a = opd(rng, cls, sa, [m, k], (), st)
+                b = opd(rng, cls, sb, [k, k], (), st)
+                if cls == 'Matrix3' and rng.random() < 0.5:
+                    a = dict(signed_perm(rng, sa), mask=rand_mask(rng, sa)); b = dict(signed_perm(rng, sb), mask=rand_mask(rng, sb))
+                # masked operand on either side, in every representation whose expansion is the drawn mask
+                for rep_b in mask_reps(mask_bits(b['mask'], sb), sb):
+                    bb = dict(b, mask=rep_b)
+                    add(fin({'op': 'dot', 'via': 'matmul', 'a': a, 'b': bb}))
+                    if out == list(sa):                       # the product fits into the left operand: M *= N
+                        add(fin({'op': 'dot', 'via': 'imatmul', 'a': a, 'b': bb}))
+                for rep_a in mask_reps(mask_bits(a['mask'], sa), sa):
+                    aa = dict(a, mask=rep_a)
+                    add(fin({'op': 'dot', 'via': 'matmul', 'a': aa, 'b': b}))
+                    if out == list(sa):
+                        add(fin({'op': 'dot', 'via': 'imatmul', 'a': aa, 'b': b}))
+                # fully masked right operand (the single value True) and Matrix * Vector
+                add(fin({'op': 'dot', 'via': 'matmul', 'a': a, 'b': dict(b, mask='T')}))
+                if out == list(sa):
+                    add(fin({'op': 'dot', 'via': 'imatmul', 'a': a, 'b': dict(b, mask='T')}))
+                add(fin({'op': 'dot', 'via': 'matmul', 'a': a, 'b': opd(rng, vec_cls(k, rng), sb, [k], (), st)}))
+                # products with a Scalar, both orders, in place, and division (zero divisors are masked)
+                s_ = opd(rng, 'Scalar', sb, [], (), 'pow2')
+                for via in ('mul', 'rmul', 'div') + (('imul', 'idiv') if out == list(sa) else ()):
+                    # (Matrix3 * Scalar is documented to return the Scalar - "rotating a scalar" - so the generic Matrix class is used)
+                    add(fin({'op': 'mscal', 'via': via, 'a': dict(a, cls='Matrix'), 'b': s_, 'noreq': True}))
 
         # ---------------------------------------------------------------- twovec / spin / from_rotation
         for sa, sb in pairs(rng, thorough):
@@ -358,6 +408,14 @@ def euler_matrix(rng, shape, edge):
         m = euler_ref(rng.choice(AXES), *a)
         vals += [float(x) for x in np.asarray(m).ravel()]
     return {'cls': 'Matrix3', 'shape': list(shape), 'numer': [3, 3], 'denom': [], 'vals': vals, 'mask': rand_mask(rng, list(shape))}
+
+
+SCALE_EXPONENTS = [-40, -30, -20, -13, -7, 7, 13, 20, 30, 40]
+
+
+def scaled(o, e):
+    """the operand times 2^e (exact in float64)"""
+    return dict(o, vals=[float(v) * 2.0 ** e for v in o['vals']])
 
 
 def inv_operand(rng, shape, n, singular=True):
